@@ -91,6 +91,10 @@ def run(ctx):
         inputs.append(("soup", W.token_soup(rng, 5 + rng.below(80)).encode("utf-8")))
     for i in range(ctx.scale(100, 5000)):
         inputs.append(("bytes", W.random_bytes(rng, 1 + rng.below(200))))
+    for b in W.eof_edge_inputs():
+        inputs.append(("eof", b))
+    for b in W.const_expr_inputs(rng.fork("constexpr"), ctx.scale(500, 20000)):
+        inputs.append(("constexpr", b))
     hist = {}
     for t, _ in inputs:
         k = t.split(":")[0]
